@@ -128,9 +128,9 @@ type c19Raw struct {
 }
 
 func c19Alphabet(tier string) []c19Req {
-	names := []string{"a", "nosuch", "a b", "0"}
+	names := []string{"a", "nosuch", "a b", "0", "%2e%2e"}
 	if tier == "thorough" {
-		names = append(names, "", "-1", "99999999999999999999", "%2e%2e")
+		names = append(names, "", "-1", "99999999999999999999", "a?x")
 	}
 	var reqs []c19Req
 	add := func(r c19Req) { reqs = append(reqs, r) }
